@@ -98,6 +98,30 @@ StaticCat == [
                   Chk("RmsNormFusion2", "ok", <<"_stash_dtype">>), Rew("RmsNormFusion2", "ok", <<"_stash_dtype">>),
                   Chk("ReshapeReshape", "fail", RR),
                   Chk("ReshapeReshape", "ok", RR), Rew("ReshapeReshape", "ok", RR)>>,
+  \* the rule catalogue: every shipped rule class that keeps fields between check() and rewrite() gets accepted matches with
+  \* different values (X, Y, W) and matches refused before / after the fields were assigned (Z); Rw*: rules.common + rules.fusion
+  \* objects, Ro*: the onnxruntime fusion objects
+  RwZ       |-> <<Chk("RmsNormFusion1", "fail", <<"_stash_dtype">>), Chk("RmsNormFusion2", "fail", <<"_stash_dtype">>),
+                  Chk("LayerNormFusion", "fail", <<"_stash_type">>), Chk("ReshapeReshape", "fail", RR),
+                  Chk("FuseConvPad", "fail", <<"_pads_list">>), Chk("FuseConvPad", "fail", <<"_pads_list">>)>>,
+  RwW       |-> <<Chk("RmsNormFusion1", "ok", <<"_stash_dtype">>), Rew("RmsNormFusion1", "ok", <<"_stash_dtype">>),
+                  Chk("RmsNormFusion2", "ok", <<"_stash_dtype">>), Rew("RmsNormFusion2", "ok", <<"_stash_dtype">>),
+                  Chk("LayerNormFusion", "ok", <<"_stash_type", "_epsilon">>), Rew("LayerNormFusion", "ok", <<"_epsilon", "_stash_type">>),
+                  Chk("ReshapeReshape", "ok", RR), Rew("ReshapeReshape", "ok", RR),
+                  Chk("FuseConvPad", "ok", <<"_pads_list">>), Rew("FuseConvPad", "ok", <<"_pads_list">>)>>,
+  RoX       |-> <<Chk("OrtRmsNormFusion2", "ok", <<"_stash_dtype">>), Rew("OrtRmsNormFusion2", "ok", <<"_stash_dtype">>)>>,
+  RoY       |-> <<Chk("OrtRmsNormFusion1", "ok", <<"_stash_dtype">>), Rew("OrtRmsNormFusion1", "ok", <<"_stash_dtype">>)>>,
+  RoZ       |-> <<Chk("OrtRmsNormFusion2", "fail", <<"_stash_dtype">>), Chk("OrtRmsNormFusion1", "fail", <<"_stash_dtype">>),
+                  Chk("OrtFuseMHAScale", "ok", <<"_scale">>), Rew("OrtFuseMHAScale", "ok", <<"_scale">>),
+                  Chk("OrtExtractDim", "ok", <<"_start_val", "_end_val">>), Rew("OrtExtractDim", "ok", <<"_start_val", "_end_val">>),
+                  Chk("OrtExtractDim", "fail", <<"_start_val", "_end_val">>)>>,
+  RoW       |-> <<Chk("OrtRmsNormFusion2", "ok", <<"_stash_dtype">>), Rew("OrtRmsNormFusion2", "ok", <<"_stash_dtype">>),
+                  Chk("OrtRmsNormFusion1", "ok", <<"_stash_dtype">>), Rew("OrtRmsNormFusion1", "ok", <<"_stash_dtype">>),
+                  Chk("OrtFuseMHAScale", "ok", <<"_scale">>), Rew("OrtFuseMHAScale", "ok", <<"_scale">>),
+                  Chk("OrtExtractDim", "ok", <<"_start_val", "_end_val">>), Rew("OrtExtractDim", "ok", <<"_start_val", "_end_val">>)>>,
+  \* rewrite with an as_function rule over a match whose nodes come from several domains: the opset imports of the extracted
+  \* function are built from the SET of used domains - one more list(set) site
+  RwAsFunc  |-> <<Ev("listset", "as_function")>>,
   RwCheckRaise   |-> <<Chk("ReshapeReshape", "ok", RR), Rew("ReshapeReshape", "ok", RR),
                        Chk("PoisonCheck", "raise", <<"_seen">>), Ev("raise", "PassError")>>,
   RwRewriteRaise |-> <<Chk("ReshapeReshape", "ok", RR), Rew("ReshapeReshape", "ok", RR),
@@ -320,4 +344,6 @@ RegressionDevs == {"proto_writes_function", "refop_cache_unversioned"}
 AllOps == DOMAIN StaticCat
 QuickOps == {"TrGlob", "ProtoGlob", "MutGlob", "OptA", "RwY", "RwCheckRaise", "FoldA", "FoldNoop", "FoldRaise",
              "PatFree", "PatRaiseCustom", "ModBuild", "OptOld", "OptNew", "ProtoOuter17", "ProtoOuter19"}
+(* the rule catalogue: all orders of the models of one family of rule objects *)
+RuleOps == {"RwX", "RwY", "RwZ", "RwW", "RoX", "RoY", "RoZ", "RoW", "RwCheckRaise", "RwRewriteRaise", "OptA", "OptB", "OptRaise"}
 =============================================================================
